@@ -47,12 +47,13 @@ Inductive oexpr (T R B : Type) :=
 | OStartLatest (ts : option (list T)) | OStartEarliest | OGreatestStart (ts : option (list T))
 | OFlowtime (ts : option (list T)) | OPriorities | OFlowtimeSingle (r : R) (iv : option (Z * Z))
 | OMaxBufMax (b : B) | OMinBufMax (b : B)
-| OMinIndicator (i : nat) (w : Z) | OMaxIndicator (i : nat) (w : Z).
+| OMinIndicator (i : nat) (w : Z) | OMaxIndicator (i : nat) (w : Z)
+| ORaw (n : nat) (t : term) (w : Z) (maximize : bool).      (* Objective(name, target = expression, weight, kind) *)
 Arguments OMakespan {T R B}. Arguments OMaxUtilization {T R B}. Arguments OMinCost {T R B}.
 Arguments OStartLatest {T R B}. Arguments OStartEarliest {T R B}. Arguments OGreatestStart {T R B}.
 Arguments OFlowtime {T R B}. Arguments OPriorities {T R B}. Arguments OFlowtimeSingle {T R B}.
 Arguments OMaxBufMax {T R B}. Arguments OMinBufMax {T R B}. Arguments OMinIndicator {T R B}.
-Arguments OMaxIndicator {T R B}.
+Arguments OMaxIndicator {T R B}. Arguments ORaw {T R B}.
 Definition uoexpr := oexpr nat resobj nat.
 
 Inductive op :=
@@ -383,7 +384,7 @@ Definition names_concat (rs : list resobj) : string := String.concat "" (map res
 (* the indicator an objective creates: (dict key, given name, expression) *)
 Definition objective_indicator (o : uoexpr) : option (option string * string * uiexpr) :=
   match o with
-  | OMakespan | OMinIndicator _ _ | OMaxIndicator _ _ => None
+  | OMakespan | OMinIndicator _ _ | OMaxIndicator _ _ | ORaw _ _ _ _ => None
   | OMaxUtilization r => Some (None, "", IUtilization r)
   | OMinCost rs => Some (None, "", ICost rs)
   | OStartLatest ts => Some (Some "MinimumStartTime", "MinimumStartTime", IMinStart ts)
@@ -416,11 +417,13 @@ Definition objective_name (st : pstate) (o : uoexpr) : option string :=
   | OMinBufMax _ => Some "MinimizeBufferLevel"
   | OMinIndicator i _ => match find_ind st i with Some r => Some ("Minimize" ++ ind_name r) | None => None end
   | OMaxIndicator i _ => match find_ind st i with Some r => Some ("Maximize" ++ ind_name r) | None => None end
+  | ORaw n _ _ _ => Some ("O" ++ show_nat n)
   end.
 Close Scope string_scope.
 Definition objective_dir (o : uoexpr) : dirn :=
   match o with
   | OMaxUtilization _ | OStartLatest _ | OMaxBufMax _ | OMaxIndicator _ _ => DMax
+  | ORaw _ _ _ true => DMax
   | _ => DMin
   end.
 
@@ -579,6 +582,7 @@ Definition step_problem (st : pstate) (o : op) : result :=
                                          o_bounds := bounds |}] |}) in
         match o with
         | OMakespan => fin st (TV VHorizon) 1 None
+        | ORaw _ t w _ => fin st t w None
         | OMinIndicator i w | OMaxIndicator i w =>
             match find_ind st i with
             | Some r => fin st (TV (VInd i)) w (i_bounds r)
